@@ -111,22 +111,22 @@ fn ints(b: &[u8]) -> Vec<u64> {
 }
 
 /// `wher` = "<panic file>|<message head>@<innermost parquet_variant function>" (empty unless the outcome is a panic)
-fn site(wher: &str) -> (String, String, String) {
+fn site(wher: &str) -> (String, String, String, String) {
     let (wfile, rest) = wher.split_once('|').unwrap_or(("", wher));
     let (msg, func) = rest.split_once('@').unwrap_or((rest, ""));
-    (wfile.to_string(), msg.to_string(), crate::alloc::fn_module(func))
+    (wfile.to_string(), msg.to_string(), crate::alloc::fn_module(func), func.to_string())
 }
 
 pub fn value_event(src: &str, meta: &[u8], value: &[u8], outcome: &str, wher: &str, tok: &str) -> Value {
-    let (wfile, msg, fmod) = site(wher);
+    let (wfile, msg, fmod, func) = site(wher);
     json!({"ev": "variant", "fmt": "variant", "api": "Variant::try_new", "src": src, "meta": ints(meta), "value": ints(value), "outcome": outcome,
-           "where": wher, "wfile": wfile, "msg": msg, "fmod": fmod, "tok": tok})
+           "where": wher, "wfile": wfile, "msg": msg, "fmod": fmod, "fn": func, "tok": tok})
 }
 
 pub fn meta_event(src: &str, meta: &[u8], outcome: &str, wher: &str, names: &[String]) -> Value {
-    let (wfile, msg, fmod) = site(wher);
+    let (wfile, msg, fmod, func) = site(wher);
     json!({"ev": "vmeta", "fmt": "variant", "api": "VariantMetadata::try_new", "src": src, "meta": ints(meta), "outcome": outcome,
-           "where": wher, "wfile": wfile, "msg": msg, "fmod": fmod, "names": names})
+           "where": wher, "wfile": wfile, "msg": msg, "fmod": fmod, "fn": func, "names": names})
 }
 
 /// valid sample variants (metadata, value) written by the crate's own builder
